@@ -11,18 +11,19 @@
 (*   line(key, rv)           a line (event or bookmark) released on it     *)
 (*   seen(o, rv, gone)       the consumer (an @on.event handler) got it    *)
 (*   fatal(key)              an unknown ERROR line was injected            *)
+(*   notfound(key)           a list/watch request for the pair got a 404   *)
 (*   check(served, watched)  checkpoint at rest: sets of pair keys         *)
 (***************************************************************************)
 EXTENDS Naturals, Sequences, FiniteSets, TLC, Json, IOUtils, TLCExt
 Traces == JsonDeserialize(IOEnv.TRACE_FILE)
 CONSTANT ObjsU
-VARIABLES tid, l, last, srvrv, srvgone, seenrv, seengone, fatal, verdict
-vars == <<tid, l, last, srvrv, srvgone, seenrv, seengone, fatal, verdict>>
+VARIABLES tid, l, last, srvrv, srvgone, seenrv, seengone, fatal, nf, verdict
+vars == <<tid, l, last, srvrv, srvgone, seenrv, seengone, fatal, nf, verdict>>
 T == Traces[tid].events
 E == T[l]
 Keys == {T[i].key : i \in {j \in DOMAIN T : T[j].ev \in {"list", "open", "line"}}}
 
-Init == /\ tid \in 1..Len(Traces) /\ l = 1 /\ verdict = "ok" /\ fatal = FALSE
+Init == /\ tid \in 1..Len(Traces) /\ l = 1 /\ verdict = "ok" /\ fatal = FALSE /\ nf = {}
         /\ last = [k \in {} |-> 0]                          \* stream key -> version of the last list / released line
         /\ srvrv = [o \in ObjsU |-> 0] /\ srvgone = [o \in ObjsU |-> TRUE]
         /\ seenrv = [o \in ObjsU |-> 0] /\ seengone = [o \in ObjsU |-> TRUE]
@@ -33,6 +34,8 @@ SetToSeq(s) == {s[i] : i \in DOMAIN s}
 
 Step ==
   /\ l <= Len(T) /\ l' = l + 1 /\ UNCHANGED tid
+  \* pairs whose last list/watch request was answered 404 (the kind had just been removed) and not re-opened since
+  /\ nf' = CASE E.ev = "notfound" -> nf \cup {E.key} [] E.ev = "open" -> nf \ {E.key} [] OTHER -> nf
   /\ CASE E.ev = "commit" ->
             /\ srvrv' = [srvrv EXCEPT ![E.o] = E.rv] /\ srvgone' = [srvgone EXCEPT ![E.o] = E.gone]
             /\ UNCHANGED <<last, seenrv, seengone, fatal, verdict>>
@@ -51,6 +54,7 @@ Step ==
        [] E.ev = "seen" ->
             /\ seenrv' = [seenrv EXCEPT ![E.o] = IF E.rv > @ THEN E.rv ELSE @] /\ seengone' = [seengone EXCEPT ![E.o] = E.gone]
             /\ UNCHANGED <<last, srvrv, srvgone, fatal, verdict>>
+       [] E.ev = "notfound" -> UNCHANGED <<last, srvrv, srvgone, seenrv, seengone, fatal, verdict>>
        [] E.ev = "fatal" ->
             /\ fatal' = TRUE /\ UNCHANGED <<last, srvrv, srvgone, seenrv, seengone, verdict>>
        [] E.ev = "check" ->
@@ -59,7 +63,12 @@ Step ==
                    dup == \E i \in DOMAIN E.watched : \E j \in DOMAIN E.watched : i # j /\ E.watched[i] = E.watched[j]
                    lost == \E o \in ObjsU : (~srvgone[o] /\ (seengone[o] \/ seenrv[o] # srvrv[o])) \/ (srvgone[o] /\ ~seengone[o])
                IN IF dup THEN Bad("two_watches_for_one_pair")
-                  ELSE IF watched # served THEN (IF fatal THEN Bad("F15") ELSE Bad("watches_differ_from_served_pairs"))
+                  ELSE IF watched # served THEN
+                         (IF fatal THEN Bad("F15")
+                          \* F25: the watcher died of a 404 while its kind was being removed, the kind came back before the
+                          \* operator rescanned, and nothing respawns the dead watcher
+                          ELSE IF watched \subseteq served /\ (served \ watched) \subseteq nf THEN Bad("F25")
+                          ELSE Bad("watches_differ_from_served_pairs"))
                   ELSE IF E.settled /\ lost THEN (IF fatal THEN Bad("F15") ELSE Bad("a_change_never_reached_processing"))
                   ELSE UNCHANGED verdict
 Spec == Init /\ [][Step]_vars
